@@ -14,7 +14,6 @@ import (
 	"fmt"
 	"strconv"
 	"strings"
-	"sync"
 )
 
 type vfKV = []string // [key, value]; a parameter without '=' has value vfNoVal
@@ -68,26 +67,19 @@ type vfAMsg struct {
 
 // ------------------------------------------------------------- interning
 
-type vfInterner struct {
-	mu sync.Mutex
-	m  map[string]string
-}
+type vfInterner struct{}
 
-var vfIntern = &vfInterner{m: map[string]string{}}
+var vfIntern = &vfInterner{}
 
-// Id returns s itself when it is short and harmless, otherwise a stable id.
+// Id returns s itself when it is short and harmless, otherwise a stable id: 64 bits of SHA-256 and the length.  Equal
+// strings get equal ids; two different strings getting the same id (about 3e-8 over a million values) could only
+// hide a difference, never invent one.  Nothing is stored: a thorough run abstracts tens of gigabytes of header values.
 func (in *vfInterner) Id(s string) string {
 	if len(s) <= 40 && !strings.ContainsAny(s, "\"\\\x00\r\n\t|") && isPrintableASCII(s) && !strings.HasPrefix(s, "#") {
 		return s
 	}
-	in.mu.Lock()
-	defer in.mu.Unlock()
-	if v, ok := in.m[s]; ok {
-		return v
-	}
-	v := fmt.Sprintf("#%d", len(in.m)+1)
-	in.m[s] = v
-	return v
+	h := sha256.Sum256([]byte(s))
+	return fmt.Sprintf("#%x-%d", h[:8], len(s))
 }
 
 func isPrintableASCII(s string) bool {
